@@ -94,9 +94,10 @@ union Result = Event | Other
 type Query { event(at: Stamp, after: Stamp, w: Window, ws: [Window!], many: [Stamp], tag: Tag): Event node: Node search: [[Result]] }
 """
 QUERIES_FULL = """
-fragment Times on Event { when times }
+fragment Times on Event { when times at }
+fragment InnerTimes on Event { maybe }
 query GetEvent($after: Stamp!, $w: Window, $ws: [Window!], $tag: Tag!) {
-  event(after: $after, w: $w, ws: $ws, tag: $tag) { id when maybe times grid tag plain loose code inner { when maybe } ...Times }
+  event(after: $after, w: $w, ws: $ws, tag: $tag) { id when maybe times grid tag plain loose code inner { when ...InnerTimes } ...Times }
 }
 query GetNode { node { id at ... on Event { when } } }
 query Second($after: Stamp!) { event(after: $after) { id } }
@@ -192,12 +193,12 @@ def _scalar_positions(flavour, extra_opts, client_kw):
             if bad:
                 fails.append(dict(inputs=dict(scenario=name), failed=bad, outcome=None))
 
-        full = {"event": {"id": "1", "when": "w", "maybe": None, "times": ["t1", "t2"], "grid": [["g1", None], []], "tag": "x", "plain": 5, "code": "c1",
+        full = {"event": {"id": "1", "at": "fa", "when": "w", "maybe": None, "times": ["t1", "t2"], "grid": [["g1", None], []], "tag": "x", "plain": 5, "code": "c1",
                           "loose": {"any": [1]}, "inner": {"when": "iw", "maybe": "im"}}}
 
         def read_full(res):
             e = res.event
-            want = dict(when=S("P:w"), maybe=None, times=[S("P:t1"), S("P:t2")], grid=[[S("P:g1"), None], []], tag="tag:x", plain=5,
+            want = dict(at=S("P:fa"), when=S("P:w"), maybe=None, times=[S("P:t1"), S("P:t2")], grid=[[S("P:g1"), None], []], tag="tag:x", plain=5,
                         loose={"any": [1]})
             bad = [k for k, v in want.items() if getattr(e, k) != v]
             if not isinstance(e.code, hm.Code) or e.code.v != "c1":
@@ -205,7 +206,7 @@ def _scalar_positions(flavour, extra_opts, client_kw):
             if e.inner.when != S("P:iw") or e.inner.maybe != S("P:im"):
                 bad.append("inner")
             return bad
-        parses_full = [("parse_stamp", x) for x in ("w", "t1", "t2", "g1", "iw", "im")] + [("parse_tag", "x"), ("parse_code", "c1")]
+        parses_full = [("parse_stamp", x) for x in ("fa", "w", "t1", "t2", "g1", "iw", "im")] + [("parse_tag", "x"), ("parse_code", "c1")]
         # (nullable top-level variables of a scalar with serializer are the recorded finding F05 and have their own witness)
         scenario("results-all-positions/required-variables-only", "get_event", dict(after=S("a"), tag="tg"), full,
                  {"after": "S:a", "tag": "out:tg"}, [("ser_stamp", S("a")), ("ser_tag", "tg")], parses_full, read_full)
